@@ -403,6 +403,18 @@ def step(W, name, args, rec, judge, ctx, wit, before_vars):
         now = [t.data.tobytes() if hasattr(t, "data") and not isinstance(t, np.ndarray) else np.asarray(t).tobytes() for t in terms]
         if now != snap_terms:
             judge.bad("C15_Pure", dict(ctx, action="solvePDE", what="terms modified"), wit)
+    elif name == "SolveFails":
+        v = W.vars[args[0]]
+        interior_before = np.array(v.value, copy=True)
+        # valid terms first (they carry matrix and right-hand-side contributions), then a vector of the wrong size
+        terms = W.terms() + [P.constantSourceTerm(P.CellVariable(W.m, 2.0 + W.fresh())), np.ones(2)]
+        try:
+            P.solvePDE(v, terms)
+            judge.note("solvePDE accepted a right-hand-side vector of the wrong size")
+        except Exception:       # noqa: BLE001
+            pass
+        if not np.array_equal(np.asarray(v.value), interior_before):
+            judge.bad("C09_FailedSolveKeepsValues", dict(ctx), wit)
     elif name == "SolveExplicit":
         v, r = args
         src = W.vars[v]
